@@ -400,6 +400,25 @@ fn diff_bits(label: &Option<String>) -> u32 {
     }
 }
 
+/// byte width of each argument of a signature string ('S'/'f' 4, 's'/'u' 2, 'b'/'c' 1, strings 0 = n/a)
+fn arg_widths(sig: &str) -> Vec<u32> {
+    let mut out = vec![];
+    let mut depth = 0;
+    for ch in sig.chars() {
+        match ch {
+            '(' => depth += 1,
+            ')' => depth -= 1,
+            'S' | 'f' | 'C' | 'o' | 't' | 'N' | 'n' | 'E' if depth == 0 => out.push(4),
+            's' | 'u' if depth == 0 => out.push(2),
+            'b' | 'c' if depth == 0 => out.push(1),
+            '_' | '-' if depth == 0 => {}
+            _ if depth == 0 => out.push(4),
+            _ => {}
+        }
+    }
+    out
+}
+
 fn opcode_of(name: &str) -> Option<i64> {
     name.strip_prefix("ins_").and_then(|n| n.parse::<i64>().ok())
 }
@@ -510,6 +529,11 @@ pub fn oracle_fieldwise(w: &mut Worker, case: &Case) -> Vec<Violation> {
             return v;
         }
     };
+    let sig_of: std::collections::BTreeMap<i64, String> = crate::case::materialise(&case.inputs, &w.ctx.corpus)
+        .into_iter()
+        .find(|(p, _)| p == "fields.map")
+        .map(|(_, d)| String::from_utf8_lossy(&d).lines().filter_map(|l| l.split_once(' ').and_then(|(a, b)| a.parse::<i64>().ok().map(|o| (o, b.trim().to_string())))).collect())
+        .unwrap_or_default();
     // ---- scripts, by position
     if req.scripts.len() != got.scripts.len() {
         v.push(Violation { class: cls("script-count"), detail: format!("requested {} scripts, read back {}", req.scripts.len(), got.scripts.len()) });
@@ -541,8 +565,21 @@ pub fn oracle_fieldwise(w: &mut Worker, case: &Case) -> Vec<Violation> {
                 v.push(Violation { class: cls("arg-count"), detail: format!("{}: requested {} args, read back {}", at, ri.args.len(), gi.args.len()) });
                 continue;
             }
+            // widths of this opcode's arguments, from the mapfile the harness wrote
+            let widths: Vec<u32> = opcode_of(&ri.name).and_then(|op| sig_of.get(&op)).map(|sg| arg_widths(sg)).unwrap_or_default();
             for (ai, (ra, ga)) in ri.args.iter().zip(gi.args.iter()).enumerate() {
-                if !scalar_eq(ra, ga) {
+                // a word/byte-sized argument holds a bit pattern: -1 and 65535 are the same word, and
+                // truth accepts either spelling; what must not happen is a value that needs more bits
+                // being cut down
+                let same_bits = match (ra, ga, widths.get(ai)) {
+                    (Val::Int(a), Val::Int(b), Some(&w)) if w < 4 => {
+                        let (min, max) = (-(1i64 << (8 * w - 1)), (1i64 << (8 * w)) - 1);
+                        let mask = (1i64 << (8 * w)) - 1;
+                        *a >= min && *a <= max && (a & mask) == (b & mask)
+                    }
+                    _ => false,
+                };
+                if !same_bits && !scalar_eq(ra, ga) {
                     let kind = match ra {
                         Val::Int(_) => "arg-int",
                         Val::Float(_) => "arg-float",
@@ -599,7 +636,9 @@ struct Prof {
     strings: Option<&'static str>,
 }
 
-const PROFS: [Prof; 14] = [
+const PROFS: [Prof; 16] = [
+    Prof { tool: "truecl-timeline", game: "th06", magic: "!eclmap", diff: false, fixed12: false, strings: None },
+    Prof { tool: "truecl-timeline", game: "th08", magic: "!eclmap", diff: false, fixed12: false, strings: None },
     Prof { tool: "trumsg-mission", game: "th095", magic: "", diff: false, fixed12: false, strings: None },
     Prof { tool: "trumsg-mission", game: "th125", magic: "", diff: false, fixed12: false, strings: None },
     Prof { tool: "truanm", game: "th06", magic: "!anmmap", diff: false, fixed12: false, strings: Some("z(bs=4)") },
@@ -639,7 +678,19 @@ fn float_lit(r: &mut Rng) -> String {
 fn sig_arg(ch: char, r: &mut Rng, wild: bool, narrow: bool) -> String {
     match ch {
         'S' => r.pick(&INTS).to_string(),
-        's' => r.pick(&[0i64, 1, -1, 255, 256, 32767, -32768]).to_string(),
+        's' | 'u' | 'b' | 'c' => {
+            let (lo, hi): (i64, i64) = match ch {
+                's' => (-32768, 32767),
+                'u' => (0, 65535),
+                'c' => (-128, 127),
+                _ => (0, 255),
+            };
+            if wild {
+                r.pick(&[lo - 1, hi + 1, lo, hi, 65536, -65536, 0, 1]).to_string()
+            } else {
+                r.pick(&[lo, hi, 0, 1, hi / 2]).to_string()
+            }
+        }
         'f' => float_lit(r),
         _ => {
             // formats with a one-byte argument size hold at most 255 bytes of arguments
@@ -691,9 +742,9 @@ fn anm_entry(r: &mut Rng, game: &str, wild: bool, nspr: &mut i64) -> String {
 /// one flat program for profile `p`: (source, mapfile)
 fn gen_program(p: &Prof, r: &mut Rng) -> (String, String) {
     let wild = r.chance(1, 3);
-    let narrow = matches!((p.tool, p.game), ("trumsg", _) | ("truanm", "th06"));
+    let narrow = matches!((p.tool, p.game), ("trumsg", _) | ("truanm", "th06") | ("truecl-timeline", "th08"));
     // signatures for this program
-    let base_sigs: Vec<&str> = if p.fixed12 { vec!["SSS", "Sff", "fff", "ffS"] } else { vec!["", "S", "SS", "f", "Sf", "SSS", "ff", "ss"] };
+    let base_sigs: Vec<&str> = if p.fixed12 { vec!["SSS", "Sff", "fff", "ffS"] } else { vec!["", "S", "SS", "f", "Sf", "SSS", "ff", "ss", "uS", "bbcc", "sbc_"] };
     let mut sigs: Vec<(i64, String)> = vec![];
     let nops = r.range(2, 5) as usize;
     let mut ops: Vec<i64> = vec![];
@@ -714,7 +765,17 @@ fn gen_program(p: &Prof, r: &mut Rng) -> (String, String) {
         }
         sigs.push((*o, sg));
     }
-    let mut map = format!("{}\n!ins_signatures\n", p.magic);
+    if p.tool == "truecl-timeline" {
+        // timeline instructions: in TH06/07 the first (word-sized) argument lives in the header
+        for (k, (_, sg)) in sigs.iter_mut().enumerate() {
+            if p.game == "th06" {
+                *sg = ["s(arg0)", "s(arg0)S", "s(arg0)fS", "S", "SS", "ff"][k % 6].to_string();
+            } else {
+                *sg = ["S", "SS", "Sf", "ss", "", "fff"][k % 6].to_string();
+            }
+        }
+    }
+    let mut map = format!("{}\n{}\n", p.magic, if p.tool == "truecl-timeline" { "!timeline_ins_signatures" } else { "!ins_signatures" });
     for (o, sg) in &sigs {
         map.push_str(&format!("{} {}\n", o, sg));
     }
@@ -725,6 +786,7 @@ fn gen_program(p: &Prof, r: &mut Rng) -> (String, String) {
             match ch {
                 '(' => depth += 1,
                 ')' => depth -= 1,
+                '_' | '-' if depth == 0 => {}
                 c if depth == 0 => out.push(c),
                 _ => {}
             }
@@ -736,7 +798,7 @@ fn gen_program(p: &Prof, r: &mut Rng) -> (String, String) {
         let n = r.range(1, 5);
         for _ in 0..n {
             if r.chance(2, 3) {
-                let t = if wild { *r.pick(&TIMES) } else if p.tool == "truecl" || p.tool == "trustd" { *r.pick(&[0i64, 1, 100, 32767, 32768, 65536, -1, -32769, 2147483647]) } else { *r.pick(&[0i64, 1, 2, 100, 255, 256, 32767, -1, -32768]) };
+                let t = if wild { *r.pick(&TIMES) } else if p.tool == "truecl" || p.tool == "trustd" || (p.tool == "truecl-timeline" && p.game == "th08") { *r.pick(&[0i64, 1, 100, 32767, 32768, 65536, -1, -32769, 2147483647]) } else { *r.pick(&[0i64, 1, 2, 100, 255, 256, 32767, -1, -32768]) };
                 s.push_str(&format!("{}:\n", t));
             }
             let (o, sg) = r.pick(&sigs).clone();
@@ -820,6 +882,12 @@ fn gen_program(p: &Prof, r: &mut Rng) -> (String, String) {
                 src.push_str(&format!("script s{} {{\n{}}}\n", k, body(r)));
             }
         }
+        "truecl-timeline" => {
+            for k in 0..(if p.game == "th06" { 1 } else { r.range(1, 2) }) {
+                src.push_str(&format!("script timeline{} {{\n{}}}\n", k, body(r)));
+            }
+            src.push_str("void sub0() {}\n");
+        }
         _ => {
             src.push_str("script timeline0 {}\n");
             for k in 0..r.range(1, 3) {
@@ -839,12 +907,13 @@ pub fn field_cases(ctx: &Ctx) -> Vec<Case> {
             let (src, map) = gen_program(p, &mut r);
             let inputs = vec![Input::tree("map/"), Input::text(crate::scen::SRC, &src), Input::text("fields.map", &map)];
             let sv = |xs: &[&str]| xs.iter().map(|s| s.to_string()).collect::<Vec<String>>();
+            let tool = if p.tool == "truecl-timeline" { "truecl" } else { p.tool };
             let (compile, dec) = if p.tool == "trumsg-mission" {
                 (Step::new(sv(&["trumsg", "compile", "--mission", "-g", p.game, crate::scen::SRC, "-o", crate::scen::OUT])), Step::new(sv(&["trumsg", "decompile", "--mission", "-g", p.game, crate::scen::OUT, "-o", crate::scen::DEC])))
             } else {
                 (
-                    Step::new(sv(&[p.tool, "compile", "-g", p.game, crate::scen::SRC, "-o", crate::scen::OUT, "-m", "fields.map"])),
-                    Step::new(sv(&[p.tool, "decompile", "-g", p.game, crate::scen::OUT, "-o", crate::scen::DEC, "-m", "fields.map", "--no-blocks", "--no-intrinsics", "--no-diff-switches", "--no-calls"])),
+                    Step::new(sv(&[tool, "compile", "-g", p.game, crate::scen::SRC, "-o", crate::scen::OUT, "-m", "fields.map"])),
+                    Step::new(sv(&[tool, "decompile", "-g", p.game, crate::scen::OUT, "-o", crate::scen::DEC, "-m", "fields.map", "--no-blocks", "--no-intrinsics", "--no-diff-switches", "--no-calls"])),
                 )
             };
             out.push(Case { property: "C03".into(), oracle: "fieldwise".into(), name: format!("fields:{}:{}#{}", p.tool, p.game, k), inputs, steps: vec![compile, dec], meta: json!({}) });
